@@ -85,6 +85,23 @@ def run_verus(gen_path, rlimit, threads=16, extra=(), multiple_errors="8"):
                 stderr_tail=r.stderr[-3000:] if js is None else "")
 
 
+def fn_of_span(prim, lines):
+    """function key whose generated text contains the primary span (None for contract text / no span)"""
+    if prim is None or not prim.get("file_name", "").endswith(("gen.rs", "gen_canary.rs")):
+        return None
+    ln = prim.get("line_start", 0)
+    if 1 <= ln <= len(lines):
+        f = lines[ln - 1].get("fn")
+        return f if f and not str(f).startswith("lemma:") else None
+    return None
+
+
+class Rejected(Exception):
+    def __init__(self, fns, msgs):
+        Exception.__init__(self, msgs)
+        self.fns, self.msgs = fns, msgs
+
+
 def classify(diags, lines, fns):
     """map verifier diagnostics to failed obligations / other errors"""
     failed, other, rlimit = [], [], []
@@ -106,10 +123,10 @@ def classify(diags, lines, fns):
         if code:
             # a rustc error (E0277 "trait bound .. is not satisfied", E0425, ..): the generated file does not type-check,
             # which is a construct outside the verified subset or a lost identifier - never a failed obligation
-            other.append(dict(message="rustc %s: %s" % (code, msg), rendered=d.get("rendered", "")[:1500]))
+            other.append(dict(message="rustc %s: %s" % (code, msg), rendered=d.get("rendered", "")[:1500], fn=fn_of_span(prim, lines)))
             continue
         if not any(m in msg for m in FAIL_MSGS) or prim is None:
-            other.append(dict(message=msg, rendered=d.get("rendered", "")[:1500]))
+            other.append(dict(message=msg, rendered=d.get("rendered", "")[:1500], fn=fn_of_span(prim, lines)))
             continue
 
         def meta(s):
@@ -120,6 +137,14 @@ def classify(diags, lines, fns):
             return None, ln
         pm, pln = meta(prim)
         fn = pm["fn"] if pm else None
+        if fn is None or str(fn).startswith("lemma:"):
+            # the primary span is contract text (e.g. the ensures of a stand-in trait method): the obligation belongs to the
+            # spliced function another span points into (its body / signature), if there is one
+            for s2 in spans:
+                m2, _ = meta(s2)
+                if m2 and m2.get("fn") and not str(m2["fn"]).startswith("lemma:"):
+                    fn = m2["fn"]
+                    break
         if fn is None and pm is not None:
             # ghost code of the contracts (lemma, spec) failed: attribute to the template location
             fn = "contracts:%s:%s" % tuple(pm["tmpl"]) if pm.get("tmpl") else None
@@ -172,9 +197,9 @@ class Session:
         self.t0 = time.time()
         self.solo_retries = []
 
-    def prepare(self):
+    def prepare(self, force_external=None):
         try:
-            sp = splice.Splicer(self.repo, CONTRACTS).run()
+            sp = splice.Splicer(self.repo, CONTRACTS, force_external=force_external or {}).run()
         except splice.SpliceError as e:
             raise Undecided("extraction: %s" % e)
         except Exception as e:  # parser crash etc.
@@ -313,6 +338,10 @@ class Session:
         vr = res["json"].get("verification-results", {})
         if other or vr.get("encountered-vir-error"):
             msgs = "; ".join(o["message"][:200] for o in other[:3]) or "vir error"
+            where = {o.get("fn") for o in other if not o["message"].startswith("aborting")}
+            if other and None not in where and all(k in self.fns and not getattr(self.fns[k], "unverified", None) for k in where):
+                # every complaint lies inside spliced functions: retry once with those functions emitted unverified
+                raise Rejected(sorted(where), msgs)
             raise Undecided("verifier rejected the generated file (construct outside the subset or contract file error): " + msgs)
         # canary run
         if not self.want_canary:
@@ -381,9 +410,11 @@ def failed_for(sess, prop):
         if f["label"] is None:
             # implicit obligation or unlabelled clause: belongs to the properties the function is tagged with (+ C06)
             if fn in sess.fns:
-                tags |= set(sess.fns[fn].tags) | {"C06"}
+                tags |= set(sess.fns[fn].tags)
+                if not any(m in f["message"] for m in ("postcondition not satisfied", "invariant not satisfied", "loop ensures")):
+                    tags |= {"C06"}      # safety obligations: overflow, bounds, unwrap, preconditions, termination, ghost asserts
             elif fn and fn.startswith("contracts:"):
-                tags |= {"*"}
+                tags |= {"*contract-side*"}
         if prop in tags or "*" in tags:
             out.append(f)
     return out
@@ -469,6 +500,12 @@ def decide(prop, sess, tier):
     labelled, fns, implicit = obligations_for(sess, prop)
     if not labelled and not implicit:
         raise Undecided("zero obligations for %s (vacuous)" % prop)
+    cside = [f for f in sess.failed if f["label"] is None and f["fn"] and str(f["fn"]).startswith("contracts:")]
+    if cside and not failed:
+        # a lemma or a stand-in of the contract files failed and no obligation of the code did: the proof script is broken on
+        # this tree (context perturbation), which says nothing about the code
+        raise Undecided("proof obligation inside the contract files failed (%s: %s): undecided, not a violation" %
+                        (cside[0]["fn"], cside[0]["message"]))
     lost = [(k, sess.fns[k].unverified) for k in fns if getattr(sess.fns[k], "unverified", None)]
     if lost and not failed:
         raise Undecided("function(s) this property depends on could not be put under contract on this tree (emitted unverified): %s" %
@@ -529,7 +566,10 @@ def selftest_for(prop, repo):
             ss = Session(tmp, "quick", use_cache=True, canary=False)
             try:
                 ss.prepare()
-                ss.verify()
+                try:
+                    ss.verify()
+                except Rejected as r:
+                    raise Undecided("rejected: " + r.msgs)
                 f = failed_for(ss, prop)
                 rows.append(dict(change=name, applied=True, detected=bool(f), failed=[x["label"] or "implicit" for x in f][:3],
                                  undecided=("resource limit" if (ss.rlimit and not f) else None)))
@@ -599,7 +639,16 @@ def main():
     rc = 0
     try:
         sess.prepare()
-        sess.verify()
+        try:
+            sess.verify()
+        except Rejected as r:
+            why = {k: "rejected by the verifier inside this function: " + r.msgs[:200] for k in r.fns}
+            sess = Session(a.repo, tier, use_cache=not a.no_cache)
+            sess.prepare(force_external=why)
+            try:
+                sess.verify()
+            except Rejected as r2:
+                raise Undecided("verifier rejected the generated file (also with %s emitted unverified): %s" % (sorted(why), r2.msgs))
     except Undecided as e:
         for p in props:
             print("UNDECIDED property=%s reason=%s" % (p, e))
@@ -680,7 +729,10 @@ def replay(path, repo):
     sess = Session(repo, "quick", use_cache=True)
     try:
         sess.prepare()
-        sess.verify()
+        try:
+            sess.verify()
+        except Rejected as r:
+            raise Undecided("rejected: " + r.msgs)
     except Undecided as e:
         print("UNDECIDED property=%s reason=%s" % (prop, e))
         return 2
